@@ -1178,8 +1178,16 @@ class Group(System):
 
             self._dataflow_graph.remove_node(pathname)
 
+            # The state of an implicit component also depends on every other state that its
+            # residual involves.
+            keys = self._get_subsystem(pathname)._subjacs_info
+            for of in outputs:
+                for wrt in outputs:
+                    if of != wrt and (of, wrt) in keys:
+                        self._dataflow_graph.add_edge(wrt, of)
+
             for output in outputs:
-                found = False
+                found = any((output, wrt) in keys for wrt in outputs if wrt != output)
                 for inp in inputs:
                     if (output, inp) not in missing:
                         self._dataflow_graph.add_edge(inp, output)
